@@ -26,6 +26,58 @@ func ruleC05(w *World) {
 	// R5: every point stored in a public-key object comes from a G2-closed producer
 	w.floor("C05.R5", 8)
 	w.ruleG2Provenance("C05.R5", a)
+	// R8: the decoders are total — "reject or accept" leaves no room for a panic: the buffer-extent obligations of C09.R1
+	// for every function reachable from the exported decoders (pointer &b[0] handed to C only for a slice proved non-empty
+	// and long enough, requirements of unexported readers propagated up to DecodePrivateKey / DecodePublicKey(Compressed))
+	w.floor("C05.R8", 4)
+	{
+		reach := map[*ssa.Function]bool{}
+		var visit func(f *ssa.Function, d int)
+		visit = func(f *ssa.Function, d int) {
+			if f == nil || reach[f] || !inModule(f) || d > 8 {
+				return
+			}
+			reach[f] = true
+			for _, b := range f.Blocks {
+				for _, ins := range b.Instrs {
+					if c, ok := ins.(ssa.CallInstruction); ok {
+						fns, _ := w.callees(c.Common())
+						for _, g := range fns {
+							visit(g, d+1)
+						}
+					}
+				}
+			}
+		}
+		nEntry := 0
+		for _, fn := range w.srcFuncs(rootPath) {
+			if fn.Signature.Recv() == nil && fn.Object() != nil && fn.Object().Exported() && strings.HasPrefix(fn.Name(), "Decode") {
+				nEntry++
+				visit(fn, 0)
+			}
+		}
+		if nEntry == 0 {
+			w.undecided("C05.R8", "anchor:decoders", token.NoPos, "unresolved anchor: exported Decode* entry points")
+		}
+		keys := map[string]bool{}
+		for f := range reach {
+			keys[fnKey(f)] = true
+		}
+		saved := w.out
+		tmp := &Out{Floors: map[string]int{}, Stats: map[string]int{}}
+		w.out = tmp
+		w.ruleCgoExtents("C05.R8")
+		w.out = saved
+		for _, o := range tmp.Obligations {
+			fk := o.Key
+			if i := strings.Index(fk, "/"); i >= 0 {
+				fk = fk[:i]
+			}
+			if keys[fk] && o.Status != "info" {
+				w.out.Obligations = append(w.out.Obligations, o)
+			}
+		}
+	}
 	// BLS public key decoder: located by role = decodePublicKey of the signer implementation returning the BLS key type
 	var blsAlgo, ecAlgo *types.Named
 	for _, t := range w.implementors(rootPath, "signer", rootPath) {
@@ -347,15 +399,21 @@ func ruleC06(w *World) {
 	// grow past t+1 entries never reports enough again; one share per signer): the sequential facts of C18.R4,
 	// evaluated inside the critical section that performs the update
 	w.floor("C06.R6", 3)
+	w.floor("C06.R8", 1) // the two add methods may share one worker
 	{
 		saved := w.out
 		tmp := &Out{Floors: map[string]int{}, Stats: map[string]int{}}
 		w.out = tmp
+		emitAddRefusals = true
 		ruleC18(w)
+		emitAddRefusals = false
 		w.out = saved
 		for _, o := range tmp.Obligations {
 			if o.Rule == "C18.R4" {
 				o.Rule = "C06.R6"
+				w.out.Obligations = append(w.out.Obligations, o)
+			}
+			if o.Rule == "C06.R8" {
 				w.out.Obligations = append(w.out.Obligations, o)
 			}
 		}
